@@ -4,6 +4,7 @@ import (
 	"context"
 	"encoding/hex"
 	"fmt"
+	"sync"
 	"testing"
 	"time"
 
@@ -17,11 +18,22 @@ import (
 
 type lwkFake struct {
 	electrumFake
+	hmu     sync.Mutex
 	headers chan *goelectrum.SubscribeHeadersResult
+	subs    int
 }
 
 func (l *lwkFake) SubscribeHeaders(ctx context.Context) (<-chan *goelectrum.SubscribeHeadersResult, error) {
+	l.hmu.Lock()
+	defer l.hmu.Unlock()
+	l.subs++
 	return l.headers, nil
+}
+
+func (l *lwkFake) cur() chan *goelectrum.SubscribeHeadersResult {
+	l.hmu.Lock()
+	defer l.hmu.Unlock()
+	return l.headers
 }
 
 // TestC20LwkWatcher drives the complete LWK/Electrum watcher (header subscription,
@@ -39,6 +51,8 @@ func TestC20LwkWatcher(t *testing.T) {
 		if err != nil {
 			t.Fatal(err)
 		}
+		resub := make(chan time.Time)
+		w.VerifSetResubscribeChan(resub)
 		window := uint32(60)
 		var recs []cbRecord
 		obsStart := 0
@@ -77,6 +91,7 @@ func TestC20LwkWatcher(t *testing.T) {
 		var ops []string
 		classes := map[string]bool{}
 		alive := true
+		maxTip, regressed := uint32(0), ""
 		send := func(h int32) {
 			if !alive {
 				return
@@ -87,22 +102,30 @@ func TestC20LwkWatcher(t *testing.T) {
 			}
 			hdr := &goelectrum.SubscribeHeadersResult{Height: h}
 			select {
-			case fake.headers <- hdr:
+			case fake.cur() <- hdr:
 			case <-time.After(time.Second):
 				alive = false
 				return
 			}
 			// a second copy is taken only after the first one was fully processed
 			select {
-			case fake.headers <- hdr:
+			case fake.cur() <- hdr:
 			case <-time.After(time.Second):
 				alive = false // the watcher stopped itself (fail-safe on invalid heights)
 			}
 			ops = append(ops, fmt.Sprintf("header(%d)", h))
+			// the tip the watcher reports (used by the payment-window checks) never goes backwards
+			if got, gerr := w.GetBlockHeight(); gerr == nil {
+				if got < maxTip {
+					regressed = fmt.Sprintf("after header(%d) the watcher's tip is %d, it was %d before", h, got, maxTip)
+				} else {
+					maxTip = got
+				}
+			}
 		}
 		steps := rapid.IntRange(1, 12).Draw(t, "steps")
 		for i := 0; i < steps; i++ {
-			op := rapid.SampledFrom([]string{"mine", "mine", "broadcast", "header", "header", "header-stale", "reorg", "rpc-error"}).Draw(t, "op")
+			op := rapid.SampledFrom([]string{"mine", "mine", "broadcast", "header", "header", "header-stale", "reorg", "rpc-error", "resubscribe"}).Draw(t, "op")
 			switch op {
 			case "mine":
 				n := rapid.SampledFrom([]uint32{1, 1, 2, 3, 10, window - 3, window}).Draw(t, "n")
@@ -123,6 +146,29 @@ func TestC20LwkWatcher(t *testing.T) {
 				c.errPlan[c.calls] = true
 				c.mu.Unlock()
 				classes["rpc-error"] = true
+			case "resubscribe":
+				// the periodic re-subscription; the (load-balanced) backend it lands on may lag behind
+				if !alive {
+					break
+				}
+				fake.hmu.Lock()
+				fake.headers = make(chan *goelectrum.SubscribeHeadersResult)
+				before := fake.subs
+				fake.hmu.Unlock()
+				select {
+				case resub <- time.Now():
+				case <-time.After(time.Second):
+					alive = false
+				}
+				waitUntil(func() bool { fake.hmu.Lock(); defer fake.hmu.Unlock(); return fake.subs > before }, time.Second)
+				_, tp := c.Depth(txid)
+				lag := int32(rapid.SampledFrom([]int{0, 0, 1, 5, 70}).Draw(t, "backendLag"))
+				classes["resubscribed"] = true
+				if lag > 0 {
+					classes["stale-notification"] = true
+				}
+				ops = append(ops, fmt.Sprintf("resubscribe(lag=%d)", lag))
+				send(int32(tp) - lag)
 			case "header":
 				_, tp := c.Depth(txid)
 				send(int32(tp))
@@ -140,8 +186,12 @@ func TestC20LwkWatcher(t *testing.T) {
 			_, tp := c.Depth(txid)
 			send(int32(tp))
 		}
-		close(fake.headers)
+		close(fake.cur())
 		desc := fmt.Sprintf("start=%d ops=%v", start, ops)
+		if regressed != "" {
+			col.Violation(t, "C20/lwk/tip-regressed", "%s: %s", desc, regressed)
+			return
+		}
 		if len(recs) > 1 {
 			col.Violation(t, "C20/lwk/duplicate-callback", "%s: %d terminal callbacks", desc, len(recs))
 			return
@@ -153,6 +203,11 @@ func TestC20LwkWatcher(t *testing.T) {
 			classes["callback:"+r.kind] = true
 			if r.kind == "confirmed" && (r.confs < 2 || !r.window || r.rawTx != rawOf(txid)) {
 				col.Violation(t, "C20/lwk/false-confirmation", "%s: reported confirmed: %+v", desc, r)
+				return
+			}
+			// a failure is for a window that has closed - not for one that is still open on the real chain
+			if r.kind == "failed" && uint64(r.tip) < uint64(start)+uint64(window) {
+				col.Violation(t, "C20/lwk/failure-while-window-open", "%s: failure %q reported at tip %d, the window [%d,%d) is still open", desc, r.err, r.tip, start, uint64(start)+uint64(window))
 				return
 			}
 		} else if alive {
